@@ -720,10 +720,13 @@ pub fn gen_cluster_scenario(rng: &mut rand::rngs::SmallRng, k: &GenKnobs) -> Sce
     let n = rng.gen_range(2..=k.max_nodes);
     let dcs = rng.gen_range(1..=3usize);
     let skewed = rng.gen_bool(0.4);
+    // data centre names: plain, or with upper-case letters, blanks and dashes
+    let fancy_names = rng.gen_bool(0.3);
+    let dc_name = move |i: usize| if fancy_names { ["EU-West", "us East 1", "AP_South"][i % 3].to_string() } else { format!("dc{i}") };
     let nodes: Vec<NodeCfg> = (1..=n as u8)
         .map(|id| NodeCfg {
             id,
-            dc: format!("dc{}", rng.gen_range(0..dcs)),
+            dc: dc_name(rng.gen_range(0..dcs)),
             skew_ms: if skewed { rng.gen_range(-600_000..600_000) } else { 0 },
             storage_faults: if rng.gen_bool(0.15) { vec![(rng.gen_range(1..20), rng.gen_range(0..3))] } else { vec![] },
             storage_latency_max_ms: if rng.gen_bool(0.3) { rng.gen_range(1..30) } else { 0 },
